@@ -510,6 +510,8 @@ def reencode_case(seed):
     tie_g = [1 if f in spec['quanti'] else 2 for f in feats]
     # features that have a twin: another feature of the type carrying exactly the same information (|association| = 1)
     twins = [fid[f] for f in feats if any(g != f and (f in spec['quanti']) == (g in spec['quanti']) and reference_assoc(spec, f, g) >= 1 - 1e-9 for g in feats)]
-    return {'id': f'selre{seed}', 'ordered': True, 'tie_m': tie_m, 'tie_g': tie_g, 'ref': ref, 'variants': vs, 'twins': twins,
+    # several measures evaluated together: features whose second measure (correlation ratio) is zero / undefined up to rounding
+    zero_m2 = [fid[f] for f in spec['quanti'] if spec['measures'] == 'multi' and scaled(reference_measure(spec, f, 1)) <= 3]
+    return {'id': f'selre{seed}', 'ordered': True, 'tie_m': tie_m, 'tie_g': tie_g, 'ref': ref, 'variants': vs, 'twins': twins, 'zero_m2': zero_m2,
             'meta': {'driver': 'selector.reencode_case', 'args': {'seed': seed}, 'task': spec['task'], 'measures': spec['measures'],
                      'default_regression_quantitative': spec['task'] == 'regression' and bool(spec['quanti'])}}
